@@ -192,7 +192,7 @@ theorem isConstant_rel_aux (n : Nat) :
       | vnode => simp [isConstant]
       | node k as hl =>
         cases k <;> try (simp [isConstant]; done)
-        · cases as <;> simp [isConstant]
+        · rcases as with _ | ⟨a1, _ | ⟨a2, ar⟩⟩ <;> simp [isConstant]
         · rcases hl with _ | ⟨h1, _ | ⟨h2, hl⟩⟩
           · simp [isConstant]
           rotate_left
@@ -233,7 +233,7 @@ theorem isConstant_rel_aux (n : Nat) :
         | vnode => simp [allConstProps]
         | node k as hl =>
           cases k <;> try (simp [allConstProps]; done)
-          · cases as <;> simp [allConstProps, ihx]
+          · rcases as with _ | ⟨a1, _ | ⟨a2, ar⟩⟩ <;> simp [allConstProps, ihx]
           · rcases hl with _ | ⟨h1, _ | ⟨h2, _ | ⟨h3, hl⟩⟩⟩ <;> try (simp [allConstProps]; done)
             rw [allConstProps_kv, allConstProps_kv, ihx, ih1 _ _ (by simp at hs ⊢; omega) h2]
             congr 2
